@@ -224,6 +224,7 @@ func generateGrid(family string, n int, r *rng, p func(string, ...any)) bool {
 	case "taggrid":
 		genTaggedLabelGrid(p)
 		genTagContextGrid(p)
+		genNaNKeyGrid(p)
 		return true
 	case "ecfault":
 		genEcFault(p)
@@ -858,6 +859,28 @@ func genTaggedLabelGrid(p func(string, ...any)) {
 // the tag number itself under a 2-, 4- and 8-byte head.  A scan of the raw bytes that loses its
 // place in a container, stops early, forgets an earlier hit or looks for one spelling of the tag
 // only shows up here; the walker (strippedTagWhereChecked) is the oracle.
+// nested maps whose two keys are the same NaN (one width, two widths): a duplicate the CBOR
+// library's grow-test cannot see — known finding K1 (C05)
+func genNaNKeyGrid(p func(string, ...any)) {
+	nan16, nan32 := []byte{0xf9, 0x7e, 0x00}, []byte{0xfa, 0x7f, 0xc0, 0x00, 0x00}
+	raw := func(b []byte) *W { return &W{Raw: b} }
+	for _, second := range [][]byte{nan16, nan32} {
+		inner := wMap(raw(nan16), wInt(1), raw(second), wInt(2))
+		um := wMap(wInt(100), inner)
+		pm := wMap(wInt(1), wInt(-7), wInt(100), inner.clone())
+		sigB := wBstr([]byte{0})
+		alg := wBstr(wMap(wInt(1), wInt(-7)).enc())
+		p("dec uh %s", hexs(um.enc()))
+		p("dec ph %s", hexs(wBstr(pm.enc()).enc()))
+		p("dec s1 %s", hexs(wTag(18, wArr(alg.clone(), um.clone(), wBstr([]byte{1}), sigB.clone())).enc()))
+		p("dec s1u %s", hexs(wArr(wBstr(pm.enc()), wMap(), wBstr([]byte{1}), sigB.clone()).enc()))
+		p("dec sig %s", hexs(wArr(alg.clone(), um.clone(), sigB.clone()).enc()))
+		p("dec sm %s", hexs(wTag(98, wArr(wBstr(nil), wMap(), wBstr([]byte{1}), wArr(wArr(alg.clone(), um.clone(), sigB.clone())))).enc()))
+	}
+	// control: the same shape with an ordinary float key twice is refused
+	p("dec uh %s", hexs(wMap(wInt(100), wMap(raw([]byte{0xf9, 0x3c, 0x00}), wInt(1), raw([]byte{0xf9, 0x3c, 0x00}), wInt(2))).enc()))
+}
+
 func genTagContextGrid(p func(string, ...any)) {
 	payload := []byte{0x50}
 	wide := func(x *W, hw int) *W { y := x.clone(); y.HW = hw; return y }
@@ -1116,6 +1139,26 @@ func genEcFault(p func(string, ...any)) {
 // C08 / C01 / C02: constructed values whose encoded protected map, payload or signature sits on a
 // length-prefix boundary (the encode-side counterpart of tbsgrid).
 func genEncGrid(p func(string, ...any)) {
+	// text where the library checks for text must be text the decoder takes: invalid UTF-8 in
+	// content type, typ, a text alg, a text crit entry — and labels that are not within int64
+	for _, bad := range []string{"746578742fff", "612fc328", "ff"} {
+		for _, b := range []string{"ph", "uh"} {
+			p("enc %s {i64:3=s:%s} !rt", b, bad)
+			p("enc %s {i64:16=s:%s} !rt", b, bad)
+		}
+		p("enc ph {i64:1=s:%s} !rt", bad)
+		p("enc ph {i64:1=a:-7,i64:2=[s:%s],s:%s=i64:1} !rt", bad, bad)
+		p("enc s1 S1(H(-;{i64:1=a:-7,i64:3=s:%s};-;{});00;01) !rt", bad)
+	}
+	for _, lbl := range []string{"u64:9223372036854775808", "u64:18446744073709551615", "u64:18446744073709551614", "u:9223372036854775808"} {
+		for _, b := range []string{"ph", "uh"} {
+			p("enc %s {%s=i64:1} !rt", b, lbl)
+			p("enc %s {%s=i64:1,i64:-1=i64:2} !rt", b, lbl)
+		}
+		p("enc ph {i64:1=a:-7,i64:2=[%s],i64:-1=i64:5} !rt", lbl)
+		p("enc key K(4;-;0;-;-;{i64:-1=b:01,%s=i64:1}) !rt", lbl)
+	}
+	p("enc ph {u64:9223372036854775807=i64:1} !rt")
 	targets := []int{22, 23, 24, 25, 254, 255, 256, 257, 65535, 65536}
 	for _, t := range targets {
 		// protected map {1: -7, 4: h'00…'} of exactly t bytes
